@@ -4,6 +4,7 @@ import GraafVerif.Proof.QueryAM
 import GraafVerif.Proof.QueryEL
 import GraafVerif.Proof.QueryWL
 import GraafVerif.Proof.QueryFast
+import GraafVerif.Proof.QueryIter
 /-!
 # C02 — every read-only query returns its textbook definition over `(V, A, w)`
 
@@ -192,6 +193,38 @@ theorem al_degreeSequenceFast_par (d : AdjList) (h : d.WF) (t : Nat) (ht : 0 < t
     AL.degreeSequenceFast d t = Spec.degreeSequence (AL.abs d) := by
   rw [AL.degreeSequenceFast_eq]; exact AL.degreeSequence_par h t ht
 example : AL.degreeSequenceFast ⟨[[1, 2], [2], []]⟩ 2 = [2, 2, 2] := by decide
+
+/-! ## One iterator value consumed partly with `next()` and then with a fold-based consumer (`q_iter`)
+
+The sequence a query yields does not depend on how its iterator is consumed: `k` calls of `next()` give
+`take k`, and `count / last / for_each / fold / skip(k).count()` then see exactly `drop k`. -/
+theorem iter_observe_eq {α : Type} (val : α → Nat) (l : List α) (k : Nat) :
+    Iter.observe val l k =
+      { taken := l.take k, count := (l.drop k).length, last := (l.drop k).getLast?, rest := l.drop k,
+        sum := ((l.drop k).map val).sum, skipCount := (l.drop k).length } := Iter.observe_eq val l k
+/-- … and the record of every iterator-returning query is the record of its DEFINED sequence. -/
+theorem iter_inNeighbors {q : Core} {G : Digraph} (h : CoreCorrect q G) (v k : Nat) :
+    Iter.observe id (q.inNeighbors v) k = Iter.observe id (Spec.inNeighbors G v) k := observe_inNeighbors h v k
+theorem iter_outNeighbors {q : Core} {G : Digraph} (h : CoreCorrect q G) {u : Nat} (hu : u ∈ G.verts) (k : Nat) :
+    (q.outNeighbors u).map (fun l => Iter.observe id l k) = some (Iter.observe id (Spec.outNeighbors G u) k) :=
+  observe_outNeighbors h hu k
+theorem iter_sequences {q : Core} {G : Digraph} (h : CoreCorrect q G) (hs : SeqCorrect q G) (t : Nat) (ht : 0 < t) (k : Nat) :
+    Iter.observe id q.vertices k = Iter.observe id G.verts k ∧
+    Iter.observe id q.sources k = Iter.observe id (Spec.sources G) k ∧
+    q.sinks.map (fun l => Iter.observe id l k) = some (Iter.observe id (Spec.sinks G) k) ∧
+    q.outdegreeSequence.map (fun l => Iter.observe id l k) = some (Iter.observe id (Spec.outdegreeSequence G) k) ∧
+    q.indegreeSequence.map (fun l => Iter.observe id l k) = some (Iter.observe id (Spec.indegreeSequence G) k) ∧
+    (q.degreeSequence t).map (fun l => Iter.observe id l k) = some (Iter.observe id (Spec.degreeSequence G) k) ∧
+    q.semidegreeSequence.map (fun l => Iter.observe (fun p => p.1 + p.2) l k)
+      = some (Iter.observe (fun p => p.1 + p.2) (Spec.semidegreeSequence G) k) :=
+  ⟨observe_vertices h k, observe_sources h k, observe_sinks h k, observe_outdegreeSequence h k,
+   observe_indegreeSequence hs k, observe_degreeSequence hs t ht k, observe_semidegreeSequence h _ k⟩
+/-- the matrix `arcs()` iterator (= `Spec.arcs`, `mx_arcs`) under the same protocol -/
+theorem iter_mx_arcs (d : AdjMatrix) (h : d.WF) (k : Nat) :
+    Iter.observe (fun p => p.1 + p.2) d.arcs k = Iter.observe (fun p => p.1 + p.2) (Spec.arcs (MX.abs d)) k := by
+  rw [MX.arcs_spec h]
+example : (Iter.observe id [0, 1] 1).count = 1 := by decide
+example : Iter.observe id [3, 5, 8] 1 = ⟨[3], 2, some 8, [5, 8], 13, 2⟩ := by decide
 
 /-- **C02, full statement.** -/
 theorem statement : Statement :=
